@@ -1,6 +1,10 @@
 """C10 implementation runner: drives Future / ConstFuture / ErrorFuture / FutureBase / AsyncTask
 through an op list using the public API only.
 
+on_computed subscribers carry a behaviour script (model: Futures.cbkind): after recording the outcome
+they see, they return, raise, unsubscribe a subscriber (themselves, a later or an earlier one) from
+fut.on_computed, subscribe a new one, or do several of these in sequence (class _Subscribers).
+
 Kind "KSusp" (model: TaskFut.v) is an AsyncTask whose body yields one dependency per phase inside a
 try/except GeneratorExit; the dependency's own computation (provider of a lazy Future, or _flush of
 the batch of a batch item) issues the phase's inner operations on the suspended task."""
@@ -88,6 +92,66 @@ def _split(op):
     return name, a
 
 
+class _Subscribers(object):
+    """Creates on_computed handlers from behaviour scripts and keeps the harness's own record of the
+    subscribe()/unsubscribe() calls that returned normally: `reg` = (sid, handler) in call order.
+    `sinking` = ConstFuture / ErrorFuture, whose hook ignores subscriptions."""
+
+    def __init__(self, log, sinking=False):
+        self.log = log
+        self.sinking = sinking
+        self.reg = []
+        self.events = []     # what the subscribers did to the subscription list while being called
+
+    def ids(self):
+        return [sid for sid, _ in self.reg]
+
+    def subscribe(self, fut, sid, k):
+        def cb(f, sid=sid, k=k):
+            nlog = len(self.log)
+            self.log.append({"": [sid, peek(f) or "NotVisible"]})
+            self.script(f, sid, k, nlog)
+        cb.sid = sid
+        fut.on_computed.subscribe(cb)
+        if not self.sinking:
+            self.reg.append((sid, cb))
+
+    def script(self, f, sid, k, nlog):
+        name, a = _split(k)
+        if name == "CbOk":
+            return
+        if name == "CbRaise":
+            raise VErr(900 + sid)
+        if name == "CbUnsub":
+            target = a[0]
+            idx = [i for i, (t, _) in enumerate(self.reg) if t == target]
+            ev = {"nlog": nlog, "by": sid, "act": "unsubscribe", "target": target, "ok": False}
+            self.events.append(ev)
+            if idx:
+                h = self.reg[idx[0]][1]
+            else:
+                def h(f):            # never subscribed: unsubscribe() raises ValueError
+                    pass
+            f.on_computed.unsubscribe(h)
+            ev["ok"] = True
+            if idx:
+                del self.reg[idx[0]]
+            return
+        if name == "CbSub":
+            self.events.append({"nlog": nlog, "by": sid, "act": "subscribe", "target": a[0], "ok": True})
+            self.subscribe(f, a[0], a[1])
+            return
+        if name == "CbSeq":
+            self.script(f, sid, a[0], nlog)
+            self.script(f, sid, a[1], nlog)
+            return
+        raise ValueError(name)
+
+    def final(self, fut):
+        """The subscribers registered at the end, as the hook itself enumerates them."""
+        return [getattr(h, "sid", -1) for h in fut.on_computed]
+
+
 def run_susp(c):
     """AsyncTask driven by the scheduler; inner operations run while it is suspended."""
     _, phases, fin, ops = c["args"]
@@ -95,25 +159,19 @@ def run_susp(c):
     runs = [0]
     log = []
     inner_res = []
-    subs = []
+    reg = _Subscribers(log)
     points = []       # observation points: before / after every operation, top-level or inner
     provlog = []      # how each run of the body ended by itself (returned / raised), observed
     holder = {}
 
     def point(when, lvl, i, name, extra=None):
         d = {"when": when, "lvl": lvl, "i": i, "op": name, "st": peek(holder["t"]), "nlog": len(log),
-             "subs": list(subs), "runs": runs[0], "nprov": len(provlog)}
+             "subs": reg.ids(), "runs": runs[0], "nprov": len(provlog)}
         if extra:
             d.update(extra)
         points.append(d)
 
-    def subscribe(task, sid, k):
-        def cb(f, sid=sid, k=k):
-            log.append({"": [sid, peek(f) or "NotVisible"]})
-            if k == "CbRaise":
-                raise VErr(900 + sid)
-        task.on_computed.subscribe(cb)
-        subs.append(sid)
+    subscribe = reg.subscribe
 
     def run_inner(pi, ph):
         task = holder["t"]
@@ -251,7 +309,8 @@ def run_susp(c):
             r = {"RRaise": [exn_id(e)]}
         res.append(r)
         point("post", "top", i, name, {"r": r})
-    return {"out": {"": [res, inner_res, log, runs[0]]}, "points": points, "prov": provlog}
+    return {"out": {"": [res, inner_res, log, runs[0], reg.final(task)]}, "points": points, "prov": provlog,
+            "events": reg.events}
 
 
 def run_case(c):
@@ -297,6 +356,7 @@ def run_case(c):
     else:
         raise ValueError(kind)
 
+    reg = _Subscribers(log, sinking=kind in ("KConst", "KError"))
     res = []
     obs = []
     for op in ops:
@@ -305,6 +365,7 @@ def run_case(c):
         else:
             (name, a), = op.items()
         pre = peek(fut)
+        pre_subs = reg.ids()
         pre_runs = runs[0]
         pre_prov = len(provlog)
         try:
@@ -327,13 +388,7 @@ def run_case(c):
                 fut.reset_unsafe()
                 r = "RUnit"
             elif name == "OSubscribe":
-                sid, k = a
-
-                def cb(f, sid=sid, k=k):
-                    log.append({"": [sid, peek(f) or "NotVisible"]})
-                    if k == "CbRaise":
-                        raise VErr(900 + sid)
-                fut.on_computed.subscribe(cb)
+                reg.subscribe(fut, a[0], a[1])
                 r = "RUnit"
             else:
                 raise ValueError(name)
@@ -343,8 +398,8 @@ def run_case(c):
             r = {"RRaise": [exn_id(e)]}
         res.append(r)
         obs.append({"op": name, "pre": pre, "post": peek(fut), "runs": runs[0] - pre_runs, "nlog": len(log),
-                    "prov": provlog[pre_prov:]})
-    return {"out": {"": [res, log, runs[0]]}, "obs": obs}
+                    "prov": provlog[pre_prov:], "subs": pre_subs})
+    return {"out": {"": [res, log, runs[0], reg.final(fut)]}, "obs": obs, "events": reg.events}
 
 
 if __name__ == "__main__":
